@@ -1087,6 +1087,25 @@ func (g *gen) genF64raw(cur float64) float64 {
 	case x == 12:
 		g.stat("float-same-bits")
 		return cur
+	case x == 13:
+		// the previous value with a WINDOW of bits flipped: the XOR with the previous value has
+		// exactly `lead` leading and `trail` trailing zeros, every pair (lead, trail) equally
+		// likely - the Gorilla-style codec encodes exactly these two numbers
+		lead := r.Intn(64)
+		trail := r.Intn(64 - lead)
+		width := 64 - lead - trail
+		var mask uint64 = 1 << uint(trail)
+		if width > 1 {
+			mask |= 1 << uint(63-lead)
+			if width > 2 {
+				mask |= (r.U64() & (1<<uint(width-2) - 1)) << uint(trail+1)
+			}
+		}
+		g.stat("float-xor-window")
+		if lead == 32 || lead == 31 || lead == 33 {
+			g.stat("float-xor-window-lead-31..33")
+		}
+		return math.Float64frombits(math.Float64bits(cur) ^ mask)
 	default:
 		g.stat("float-randbits")
 		return math.Float64frombits(r.U64())
